@@ -98,7 +98,17 @@ let () =
       let t = float_of_int (int_of_nat fb.Flat.fl_trials) in
       let space = Stdlib.List.fold_left (fun acc fd ->
           acc *. (float_of_int (Stdlib.List.length fd.Flat.ff_levels) ** t)) 1.0 fb.Flat.fl_design in
-      if n > mx || space > 150000.0 then "(big " ^ string_of_int n ^ " " ^ level ^ ")"
+      (* Sem.all_valid fills derived rows in list order: it is complete only if every derived factor is
+         listed after the factors it reads (the desugared weighted free factors are not) *)
+      let listed_ok =
+        let rec go i = function
+          | [] -> true
+          | fd :: t ->
+            (match fd.Flat.ff_window with
+             | Some w -> Stdlib.List.for_all (fun d -> int_of_nat d < i) w.Flat.win_deps
+             | None -> true) && go (i + 1) t in
+        go 0 fb.Flat.fl_design in
+      if n > mx || space > 150000.0 || not listed_ok then "(big " ^ string_of_int n ^ " " ^ level ^ ")"
       else "(frag " ^ string_of_int n ^ " " ^ show_bool (FragSem.check_sound fb) ^ " " ^ show_bool (FragSem.check_inj fb) ^ " "
            ^ show_bool (FragSem.check_complete fb) ^ " " ^ show_bool (FragSem.check_accepted_count fb) ^ " "
            ^ show_bool (if Frag.rejection_free fb then FragSem.check_count fb else true) ^ " "
